@@ -819,6 +819,20 @@ func doCheck(id, tier string) int {
 		fmt.Println("INCONCLUSIVE " + s)
 	}
 
+	if id == "SELF" {
+		// engine self-test: any disagreement between a summary and the interpreted naive code
+		// (a candidate that does not reproduce natively), any native failure and any inconclusive
+		// condition fails it; no evidence file (it is not a property)
+		for _, l := range violLines {
+			fmt.Println(l)
+		}
+		if spurious > 0 || confirmed > 0 || len(inconclusive) > 0 {
+			fmt.Printf("SELFTEST FAILED spurious=%d native-failures=%d inconclusive=%d\n", spurious, confirmed, len(inconclusive))
+			return 1
+		}
+		fmt.Printf("SELFTEST OK harnesses=%d differential=%d/%d wall=%.1fs\n", len(reports), diffAgree, diffRuns, time.Since(t0).Seconds())
+		return 0
+	}
 	writeEvidence(id, tier, seed, reports, confirmed, spurious, replays, diffRuns, diffAgree, knownSeen, inconclusive, time.Since(t0))
 
 	for _, l := range violLines {
